@@ -15,6 +15,17 @@ var VerifGate func(name string, c Collection)
 // VerifOnRemove, when non-nil, is called just before a file is unlinked.
 var VerifOnRemove func(path string)
 
+// VerifOnRef, when non-nil, is called after every reference count change
+// of a segmentStack, SnapshotWrapper, Footer, mmapRef or FileRef with the new
+// count (the object's own lock is held: the callback must not call back).
+var VerifOnRef func(kind string, obj interface{}, after int)
+
+func verifRef(kind string, obj interface{}, after int) {
+	if f := VerifOnRef; f != nil {
+		f(kind, obj, after)
+	}
+}
+
 func verifGate(name string, m *collection) {
 	if g := VerifGate; g != nil {
 		g(name, m)
